@@ -769,6 +769,18 @@ Section RoundTrip.
       + eexists _, _; split; try reflexivity; exact I.
   Qed.
 
+  (* the first token of any printed well-formed tree: no closer, no `..` that binds to the left *)
+  Lemma elem_head_gen a st : wf a = true -> ops_ok a = true ->
+    exists t ts, fmt F a st = t :: ts /\ match t with TClose _ => False | TRg bl _ => bl = false | _ => True end.
+  Proof.
+    intros Hw Ho. destruct (plain a) eqn:Hp.
+    - destruct (fmt_head' a (plain_operand a Hp) Hw Ho st (okst_plain a _ Hp)) as [t [ts [E Hh]]]. exists t, ts. split; [exact E|].
+      destruct Hh as [Hh| ->]; [destruct t; try contradiction; try exact I; exact Hh | exact I].
+    - destruct st as [[ctx pos] unb]. destruct a; try discriminate Hp; rewrite fmt_eq.
+      + destruct (alias_ctx F <? ctx)%N; eexists _, _; split; try reflexivity; exact I.
+      + eexists _, _; split; try reflexivity; exact I.
+  Qed.
+
   Definition simple_kind (k : gkind) : bool := match k with GCase => false | _ => true end.
   Definition elem_ok_in (k : gkind) (a : expr) : bool :=
     match k with GPipe | GTup => negb (is_named a) | GArr | GCase => plain a end.
@@ -1226,6 +1238,227 @@ Section RoundTrip.
       rewrite (up_params (length ps + g2) (length ps + g2 + g3) _ _ ltac:(lia) Hg1).
       rewrite (up_call g3 (length ps + g2 + g3) _ _ ltac:(lia) Hg3). reflexivity.
   Qed.
+
+  (* ---------------- a parameter is never glued to a following `..` (the repair of commit 1b7b9df, at token level) *)
+  Definition ends_param (ts : list tok) : bool := match last ts TComma with TA (AParam _) => true | _ => false end.
+  Definition starts_rng (ts : list tok) : bool := match ts with TRg true _ :: _ => true | _ => false end.
+
+  Lemma glued_cons2 t t2 r :
+    glued (t :: t2 :: r) = (match t, t2 with TA (AParam _), TRg true _ => true | _, _ => false end) || glued (t2 :: r).
+  Proof. reflexivity. Qed.
+
+  Lemma glued_app A B : glued (A ++ B) = glued A || glued B || (ends_param A && starts_rng B).
+  Proof.
+    induction A as [|t A IH]; [cbn; rewrite orb_false_r; reflexivity|].
+    destruct A as [|t2 A'].
+    - cbn [app]. destruct B as [|b B'].
+      + destruct t as [a| | | | | | | | | | | ]; try reflexivity. destruct a; reflexivity.
+      + rewrite glued_cons2. generalize (glued (b :: B')). intro y.
+        destruct t as [a|s un|bl br|k|k| | | |n|n| | ]; try (destruct y; reflexivity).
+        destruct a; try (destruct y; reflexivity).
+        destruct b as [a2|s2 un2|bl2 br2|k2|k2| | | |n2|n2| | ]; try (destruct y; reflexivity).
+        destruct bl2; destruct y; reflexivity.
+    - change ((t :: t2 :: A') ++ B) with (t :: t2 :: (A' ++ B)). rewrite !glued_cons2.
+      change (t2 :: A' ++ B) with ((t2 :: A') ++ B). rewrite IH.
+      assert (ends_param (t :: t2 :: A') = ends_param (t2 :: A')) as -> by reflexivity.
+      rewrite !orb_assoc. reflexivity.
+  Qed.
+
+  Lemma glued_app_false A B : glued A = false -> glued B = false -> (ends_param A = false \/ starts_rng B = false) ->
+    glued (A ++ B) = false.
+  Proof. intros HA HB H. rewrite glued_app, HA, HB. destruct H as [-> | ->]; [reflexivity | apply andb_false_r]. Qed.
+
+  Lemma glued_cons t ts : (forall s, t <> TA (AParam s)) -> glued (t :: ts) = glued ts.
+  Proof.
+    intro H. cbn [glued]. destruct t as [a|s un|bl br|k|k| | | |n|n| | ]; try reflexivity.
+    destruct a; try reflexivity. exfalso. apply (H s). reflexivity.
+  Qed.
+
+  Lemma ends_param_snoc ts t : (forall s, t <> TA (AParam s)) -> ends_param (ts ++ [t]) = false.
+  Proof.
+    intro H. unfold ends_param. rewrite last_last. destruct t as [a| | | | | | | | | | | ]; try reflexivity.
+    destruct a; try reflexivity. exfalso. apply (H s). reflexivity.
+  Qed.
+  Lemma ends_param_cons t t2 ts : ends_param (t :: t2 :: ts) = ends_param (t2 :: ts).
+  Proof. reflexivity. Qed.
+
+  Lemma glued_wrap w ts : glued ts = false -> glued (wrap w ts) = false.
+  Proof.
+    intro H. destruct w; [|exact H]. cbn [wrap]. rewrite glued_cons by discriminate.
+    apply glued_app_false; [exact H | reflexivity | right; reflexivity].
+  Qed.
+  Lemma ends_param_wrap ts : ends_param (wrap true ts) = false.
+  Proof. cbn [wrap]. change (TOpen GPipe :: ts ++ [TClose GPipe]) with ((TOpen GPipe :: ts) ++ [TClose GPipe]). apply ends_param_snoc. discriminate. Qed.
+
+  Lemma ends_close_not_param ts : ends_close ts = true -> ends_param ts = false.
+  Proof. unfold ends_close, ends_param. destruct (last ts TComma) as [a| | | |k| | | | | | | ]; try discriminate; reflexivity. Qed.
+
+  (* no printed expression begins with a `..` that binds to the left *)
+  Lemma head_not_rng e st : wf e = true -> ops_ok e = true -> starts_rng (fmt F e st) = false.
+  Proof.
+    intros Hw Ho. destruct (elem_head_gen e st Hw Ho) as [t [ts [E H]]]. rewrite E. destruct t; try reflexivity.
+    subst bl. reflexivity.
+  Qed.
+
+  (* in front of `..` the start of a range never ends in a parameter token *)
+  Lemma start_not_param l ctx unb : operand l = true -> wf l = true -> ops_ok l = true ->
+    N.max ctx (bs_rng F) = bs_rng F -> ends_param (range_start F l ctx unb) = false.
+  Proof.
+    intros Hp Hw Ho Hc.
+    destruct (range_start_cases l ctx unb) as [E|[[s [-> E]]|[u [p [-> [EN E]]]]]]; rewrite E.
+    2: { change (TOpen GPipe :: fmt F (EAtom (AParam s)) (N.max ctx (bs_rng F), PUnspec, unb) ++ [TClose GPipe])
+           with (wrap true (fmt F (EAtom (AParam s)) (N.max ctx (bs_rng F), PUnspec, unb))). apply ends_param_wrap. }
+    2: { change (TS (sym_un F u) true :: TOpen GPipe :: fmt F (EAtom (AParam p)) (N.max ctx (bs_un F), PUnspec, unb) ++ [TClose GPipe])
+           with ((TS (sym_un F u) true :: TOpen GPipe :: fmt F (EAtom (AParam p)) (N.max ctx (bs_un F), PUnspec, unb)) ++ [TClose GPipe]).
+         apply ends_param_snoc. discriminate. }
+    (* the expression as it is: then either its text ends in `)`, or it is no parameter and no sign applied to one *)
+    unfold range_start in E. rewrite Hc in *.
+    destruct (ends_close (fmt F l (bs_rng F, PUnspec, unb))) eqn:EC; [apply ends_close_not_param; exact EC|].
+    assert (Wr : forall x st', wrapped st' x = true -> operand x = true -> okst x st' -> ends_close (fmt F x st') = true).
+    { intros x [[c' p'] u'] Hwx Hpx Hokx. destruct (operand_cases x Hpx) as [Hpl|[n [y ->]]].
+      - rewrite (wrapped_plain x _ Hpl) in Hwx. rewrite (fmt_plain x _ Hpl), Hwx. cbn [wrap]. apply ends_close_cons_snoc.
+      - rewrite fmt_alias_hi by (apply Hokx; reflexivity).
+        change (TOpen GPipe :: TAlias n :: fmt F y (0%N, p', false) ++ [TClose GPipe])
+          with (TOpen GPipe :: (TAlias n :: fmt F y (0%N, p', false)) ++ [TClose GPipe]). apply ends_close_cons_snoc. }
+    assert (Hokl : okst l (bs_rng F, PUnspec, unb)) by (apply okst_lt; apply (H_alias_rng C)).
+    destruct (rng_child l unb Hp Ho) as [Hn|[Hn|Hn]].
+    - rewrite (Wr l (bs_rng F, PUnspec, unb) Hn Hp Hokl) in EC. discriminate EC.
+    - destruct l as [a|o l1 r1|u x|l1 r1|l1|r1| |f args|k es|n x|n x|ps ds b]; try discriminate Hn.
+      + (* an atom that is no parameter (a parameter is case 2 above) *)
+        rewrite fmt_eq in *. destruct (needs F (bs_rng F, PUnspec, unb) (EAtom a)); cbn [wrap kind_fmt inner_state] in *; [apply ends_param_wrap|].
+        destruct a; try reflexivity. cbn [kind_of] in E. cbn [ends_close last] in E. discriminate E.
+      + rewrite fmt_eq. destruct (needs F (bs_rng F, PUnspec, unb) (EGroup k es)); cbn [wrap kind_fmt inner_state]; [apply ends_param_wrap|].
+        change (TOpen k :: fmt_items F k PUnspec es 0 ++ [TClose k]) with ((TOpen k :: fmt_items F k PUnspec es 0) ++ [TClose k]).
+        apply ends_param_snoc. discriminate.
+    - destruct l as [a|o l1 r1|u x|l1 r1|l1|r1| |f args|k es|n x|n x|ps ds b]; try discriminate Hn.
+      cbn [wf ops_ok] in Hw, Ho. bsplit.
+      rewrite fmt_eq in *. destruct (needs F (bs_rng F, PUnspec, unb) (EUn u x)) eqn:EN; cbn [wrap kind_fmt inner_state] in *; [apply ends_param_wrap|].
+      assert (Hokx : okst x (N.max (bs_rng F) (bs_un F), PUnspec, unb)) by (apply okst_lt; pose proof (H_alias_un C); lia).
+      assert (Hmx : N.max (bs_rng F) (bs_un F) = bs_un F) by (pose proof (H_rng_un C); lia).
+      rewrite Hmx in *.
+      destruct (fmt F x (bs_un F, PUnspec, unb)) as [|t2 ts2] eqn:Ex.
+      { destruct (fmt_head' x ltac:(assumption) ltac:(assumption) ltac:(assumption) _ Hokx) as [t3 [ts3 [E3 _]]]. rewrite E3 in Ex. discriminate Ex. }
+      rewrite ends_param_cons. rewrite <- Ex.
+      destruct (un_child x PUnspec unb ltac:(assumption) ltac:(assumption)) as [Hx|Hx].
+      + apply ends_close_not_param. apply Wr; assumption.
+      + destruct x as [a|o2 l2 r2|u2 x2|l2 r2|l2|r2| |f2 args2|k2 es2|n2 x2|n2 x2|ps2 ds2 b2]; try discriminate Hx.
+        * rewrite fmt_eq. destruct (needs F _ (EAtom a)) eqn:ENa; cbn [wrap kind_fmt inner_state]; [apply ends_param_wrap|].
+          destruct a; try reflexivity.
+          (* a sign applied to a parameter is case 3 above *)
+          exfalso. cbn [kind_of is_param] in E. injection E as E1 _.
+          rewrite fmt_eq, ENa in Ex. cbn [wrap kind_fmt inner_state] in Ex. injection Ex as Ex1 _. rewrite <- Ex1 in E1. discriminate E1.
+        * rewrite fmt_eq. destruct (needs F _ (EGroup k2 es2)); cbn [wrap kind_fmt inner_state]; [apply ends_param_wrap|].
+          change (TOpen k2 :: fmt_items F k2 PUnspec es2 0 ++ [TClose k2]) with ((TOpen k2 :: fmt_items F k2 PUnspec es2 0) ++ [TClose k2]).
+          apply ends_param_snoc. discriminate.
+  Qed.
+
+  Lemma starts_rng_app X Y : X <> [] -> starts_rng (X ++ Y) = starts_rng X.
+  Proof. destruct X as [|t X']; [intro H; contradiction H; reflexivity | reflexivity]. Qed.
+
+  Lemma starts_rng_fmt_app e st Y : wf e = true -> ops_ok e = true -> starts_rng (fmt F e st ++ Y) = false.
+  Proof.
+    intros Hw Ho. destruct (elem_head_gen e st Hw Ho) as [t [ts [E H]]]. rewrite E. cbn [app].
+    destruct t; try reflexivity. subst bl. reflexivity.
+  Qed.
+
+  Lemma glued_atom a st : glued (fmt F (EAtom a) st) = false.
+  Proof. rewrite fmt_eq. apply glued_wrap. destruct st as [[ctx pos] unb]. cbn [kind_fmt inner_state]. destruct (needs F _ _); destruct a; reflexivity. Qed.
+
+  Lemma starts_rng_defaults c unb t Y : starts_rng Y = false -> starts_rng (fmt_defaults F c unb t ++ Y) = false.
+  Proof.
+    intro HY. induction t as [|d t IH]; [exact HY|].
+    unfold fmt_defaults. cbn [flat_map]. fold (fmt_defaults F c unb t). rewrite <- app_assoc.
+    destruct d; try exact IH. reflexivity.
+  Qed.
+
+  Lemma ends_param_names ps : ends_param (map (fun p => TA (APar p)) ps) = false.
+  Proof.
+    induction ps as [|p t IH]; [reflexivity|]. cbn [map]. destruct t as [|p2 t2]; [reflexivity|].
+    cbn [map] in *. rewrite ends_param_cons. exact IH.
+  Qed.
+  Lemma glued_names ps : glued (map (fun p => TA (APar p)) ps) = false.
+  Proof. induction ps as [|p t IH]; [reflexivity|]. cbn [map]. rewrite glued_cons by discriminate. exact IH. Qed.
+
+  (* the induction predicate: the statement for e, and for the value of a named argument / default *)
+  Definition Qglue (e : expr) : Prop :=
+    (wf e = true -> ops_ok e = true -> forall st, glued (fmt F e st) = false) /\
+    match e with ENamed _ x => wf x = true -> ops_ok x = true -> forall st, glued (fmt F x st) = false | _ => True end.
+
+  Theorem no_glue_all e : Qglue e.
+  Proof.
+    induction e as [a|o l r IHl IHr|u x IHx|l r IHl IHr|l IHl|r IHr| |f args IHf IHargs|k es IHes|n x IHx|n x IHx|ps ds b IHds IHb] using expr_ind2.
+    11: { (* named *)
+      destruct IHx as [Gx _]. split; [|exact Gx].
+      intros Hw Ho [[ctx pos] unb]. cbn [wf ops_ok] in Hw, Ho. bsplit. rewrite fmt_eq. rewrite glued_cons by discriminate. apply Gx; assumption. }
+    10: { (* alias *)
+      destruct IHx as [Gx _]. split; [|exact I].
+      intros Hw Ho [[ctx pos] unb]. cbn [wf ops_ok] in Hw, Ho. bsplit. rewrite fmt_eq.
+      destruct (alias_ctx F <? ctx)%N.
+      - rewrite !glued_cons by discriminate. apply glued_app_false; [apply Gx; assumption | reflexivity | right; reflexivity].
+      - rewrite glued_cons by discriminate. apply Gx; assumption. }
+    all: split; [|exact I]; intros Hw Ho st; rewrite fmt_eq; apply glued_wrap;
+      match goal with |- context [inner_state st (needs F st ?e)] =>
+        pose proof (inner_ctx st e) as Hc; revert Hc; generalize (inner_state st (needs F st e)) end; intros [[ctx pos] unb] Hc;
+      cbn [fst strength] in Hc; cbn [kind_fmt]; cbn [wf ops_ok] in Hw, Ho; bsplit.
+    - destruct a; reflexivity.
+    - destruct IHl as [Gl _]. destruct IHr as [Gr _].
+      apply glued_app_false; [apply Gl; assumption | rewrite glued_cons by discriminate; apply Gr; assumption | right; reflexivity].
+    - destruct IHx as [Gx _]. rewrite glued_cons by discriminate. apply Gx; assumption.
+    - destruct IHl as [Gl _]. destruct IHr as [Gr _].
+      apply glued_app_false; [ | rewrite glued_cons by discriminate; apply Gr; assumption | left; apply start_not_param; assumption].
+      destruct (range_start_cases l ctx unb) as [E|[[s [-> E]]|[u [p [-> [EN E]]]]]]; rewrite E.
+      + apply Gl; assumption.
+      + apply (glued_wrap true). apply glued_atom.
+      + rewrite glued_cons by discriminate. apply (glued_wrap true). apply glued_atom.
+    - destruct IHl as [Gl _].
+      apply glued_app_false; [ | reflexivity | left; apply start_not_param; assumption].
+      destruct (range_start_cases l ctx unb) as [E|[[s [-> E]]|[u [p [-> [EN E]]]]]]; rewrite E.
+      + apply Gl; assumption.
+      + apply (glued_wrap true). apply glued_atom.
+      + rewrite glued_cons by discriminate. apply (glued_wrap true). apply glued_atom.
+    - destruct IHr as [Gr _]. rewrite glued_cons by discriminate. apply Gr; assumption.
+    - reflexivity.
+    - (* call *)
+      rewrite go_forall in *. destruct IHf as [Gf _].
+      assert (GA : forall c pos0, glued (fmt_args F c pos0 args) = false /\ (forall Y, starts_rng Y = false -> starts_rng (fmt_args F c pos0 args ++ Y) = false)).
+      { intros c pos0. clear - IHargs H2 H0 C. revert H2 H0. induction IHargs as [|a t Pa Pt IH]; intros Hws Hos; [split; [reflexivity | intros Y HY; exact HY]|].
+        cbn [forallb] in Hws, Hos. bsplit. destruct (IH ltac:(assumption) ltac:(assumption)) as [G1 G2]. destruct Pa as [Ga _].
+        rewrite fmt_args_cons. split.
+        - apply glued_app_false; [apply Ga; assumption | exact G1 | right; rewrite <- (app_nil_r (fmt_args F c pos0 t)); apply G2; reflexivity].
+        - intros Y HY. rewrite <- app_assoc. apply starts_rng_fmt_app; assumption. }
+      destruct (GA (N.max ctx (bs_call F)) PUnspec) as [G1 G2].
+      apply glued_app_false; [apply Gf; assumption | exact G1 | right; rewrite <- (app_nil_r (fmt_args F _ _ args)); apply G2; reflexivity].
+    - (* group *)
+      rewrite go_forall in *.
+      rewrite glued_cons by discriminate. apply glued_app_false; [ | reflexivity | right; reflexivity].
+      match goal with H : forallb wf es = true |- _ => rename H into Hws end.
+      match goal with H : forallb (ops_ok) es = true |- _ => rename H into Hos end.
+      clear - IHes Hws Hos C. generalize 0 at 1. revert Hws Hos. induction IHes as [|a t Pa Pt IH]; intros Hws Hos i; [reflexivity|].
+      cbn [forallb] in Hws, Hos. bsplit. destruct Pa as [Ga _].
+      destruct t as [|b t']; [cbn [fmt_items]; apply Ga; assumption|].
+      rewrite fmt_items_cons2. apply glued_app_false; [apply Ga; assumption | | right; destruct k; cbn [sep_of]; try reflexivity; destruct (Nat.even i); reflexivity].
+      rewrite glued_cons by (destruct k; cbn [sep_of]; try discriminate; destruct (Nat.even i); discriminate).
+      apply IH; assumption.
+    - (* lambda *)
+      rewrite go_forall in *. destruct IHb as [Gb _].
+      rewrite glued_cons by discriminate.
+      apply glued_app_false; [apply glued_names | | left; apply ends_param_names].
+      match goal with H : forallb wf ds = true |- _ => rename H into Hws end.
+      match goal with H : forallb (ops_ok) ds = true |- _ => rename H into Hos end.
+      assert (GB : glued (TThin :: fmt F b (N.max ctx (body_ctx F), PUnspec, unb)) = false).
+      { rewrite glued_cons by discriminate. apply Gb; assumption. }
+      assert (SB : starts_rng (TThin :: fmt F b (N.max ctx (body_ctx F), PUnspec, unb)) = false) by reflexivity.
+      revert GB SB. generalize (TThin :: fmt F b (N.max ctx (body_ctx F), PUnspec, unb)). intros B GB SB.
+      clear - IHds Hws Hos C GB SB. revert Hws Hos. induction IHds as [|d t Pd Pt IH]; intros Hws Hos; [exact GB|].
+      cbn [forallb] in Hws, Hos. bsplit. specialize (IH ltac:(assumption) ltac:(assumption)).
+      unfold fmt_defaults. cbn [flat_map]. fold (fmt_defaults F (N.max ctx (default_ctx F)) unb t). rewrite <- app_assoc.
+      destruct d; try exact IH.
+      destruct Pd as [_ Gx]. cbn [wf ops_ok] in *. bsplit. cbn [app]. rewrite glued_cons by discriminate.
+      apply glued_app_false; [apply Gx; assumption | exact IH | right; apply starts_rng_defaults; exact SB].
+  Qed.
+
+  Corollary no_glue e st : wf e = true -> ops_ok e = true -> glued (fmt F e st) = false.
+  Proof. intros Hw Ho. destruct (no_glue_all e) as [G _]. apply G; assumption. Qed.
 
   (* ---------------- the theorem *)
   Theorem roundtrip e : wf e = true -> ops_ok e = true -> is_named e = false ->
